@@ -1,23 +1,51 @@
 """C02 — the result of a run does not depend on event order, timing or engine caches."""
 GEN = ['states']
 MANIFEST = {
-    'technique': 'paired-schedule differential runs of the real engine + engine model refinement check; Lean 4 '
-                 'theorems for the order-insensitivity of the three set-reading decision points',
-    'text': 'Theorems: join_verdict_order_independent (the join verdict depends on the listed rows only through the '
-            'latest row of each task), verdict_order_independent (the completion verdict is invariant under permutation '
-            'of the task rows), merge_order_independent (version merge at a join, flat consistent contexts; C05). The '
-            'whole-run statement is decided on the real engine: every generated program of the deterministic class '
-            '(single activation, no partial join, no engine command racing branches) is run under two different '
-            'schedules, with and without spec-cache eviction before every event and with an engine restart, and the '
-            'outcomes (final state, task states and published variables, output) must be equal; the core stream adds '
-            'that every explored schedule matches the one Lean model event by event.',
-    'note': 'Confluence of the engine model itself (any two complete schedules give equal outcomes) is NOT proved; '
-            'it is sampled. cachetools LRU is not modelled (eviction is exercised, not proved).',
+    'technique': 'Lean 4 refinement theorem: the engine model refines a declarative (schedule-free) semantics, for ALL '
+                 'histories by invariants; the semantics itself is checked against the real engine at quiescence; '
+                 'paired-schedule differential runs of the real engine; engine model refinement check after every event',
+    'text': 'SCHEDULE INDEPENDENCE OF THE OUTCOME IS A THEOREM of the engine model, at full strength (Mistral.Props.C02Sem). '
+            'Mistral.Sem is a declarative semantics of the data-free direct workflows Mistral.Engine models: which tasks run, '
+            'their final states and next_tasks and the final workflow state as a function of the definition and the action '
+            'results ONLY (least fixed point over the acyclic graph: start tasks run; a completed task routes to its fired '
+            'on-clauses; a non-join target runs; a join runs its action when the required number of inbound tasks routed to it '
+            'and is ERROR when that can no longer happen; verdict = check_and_complete rule). For every definition of the class '
+            'DetClass (SpecOK of WP-A: unique names, satisfiable join: N, acyclic; a start task; known targets - joins all / one '
+            '/ N, forks, on-error / on-complete, guards that do not fire, several activations, partial joins re-run by late '
+            'branches), every oracle and EVERY plain history (deliveries in any order, pause / resume anywhere, no stop, no lost '
+            'action, executor results = the oracle\'s): sound (at every moment every row is a task of the semantic set and every '
+            'completed row has the prescribed state and next_tasks), complete_at_quiescence (nothing pending and not PAUSED: the '
+            'workflow state is the semantic verdict and the rows are EXACTLY the semantic set of (name, state, next_tasks)), '
+            'quiescent_is_final, executions_per_task (a join of the semantic set has exactly one execution), hence outcome_schedule_independent (ANY two plain quiescent histories have equal outcomes) and '
+            'pause_resume_same_outcome (a quiescent history with pause / resume anywhere = any quiescent history never paused). '
+            'The two exclusions the first version of these theorems needed were genuine defects, both repaired: the re-opened join '
+            'keeping processed=True (acd6a089) and the stale start request (resume re-queues start_task(first_run=False) for an '
+            'IDLE task; delivered after the task FAILED it ran the task again: repo_patches/20, model follows; '
+            'stale_request_regression + corpus/C02 regression). Ties: stream `sem` (real engine run to quiescence under random '
+            'schedules + pause/resume + cache eviction, compared with the semantics computed by the Lean driver - not with another '
+            'run - and real rows sound on every prefix), stream `core` (every explored schedule equals the one Lean model after '
+            'EVERY event), stream `engine` mode paired (programs with data flow: two schedules, +evict, +restart, equal outcomes), '
+            'stream `ctx`. The multiset reading (each task of a single-activation definition executed exactly once) is FALSE of the '
+            'code also for join: all (executions_once_full_fails: a join that failed early is re-opened by a late branch and its '
+            'successors run twice; real-engine replay corpus/C02/early_error_join_rerun.json, known finding); in the strict class it is '
+            'monitored by the sem stream, not proved. Local theorems (C02): join_verdict_order_independent, verdict_order_independent, '
+            'merge_order_independent.',
+    'note': 'The theorems are about Mistral.Engine (one event = one committed transaction; data flow / expressions / policies / '
+            'with-items / sub-workflows outside): published variables and output are covered by merge_order_independent (C05) and '
+            'the paired runs only. Outcome = workflow state + SET of rows: the NUMBER of executions of a task that is activated '
+            'several times (partial join re-run by a late branch) does depend on the order and is not claimed. Hypotheses: '
+            'SpecOK / TargetsKnown are what the validator guarantees + acyclicity; histories start with `start`. cachetools LRU is not '
+            'modelled (eviction is exercised, not proved). Fairness is assumed (quiescence is a hypothesis).',
 }
 RULE = ('stream engine (mode paired): program x oracle x two schedules (+evict, +restart); non-trivial = all paired '
-        'cases; distinct = distinct (definition, oracle, both schedule seeds); stream core as in C01')
+        'cases; distinct = distinct (definition, oracle, both schedule seeds); stream core as in C01; stream sem: corpus of '
+        'theorem counter-witnesses (model event lists replayed on the real engine) + small acyclic definitions (<=5 tasks, '
+        'joins all/one/N with successors, guards that do not fire, 30% multi-activation), indirect-join shapes and larger '
+        'single-activation DAGs with task-defaults x oracle (set of failing tasks) x random/fifo/lifo schedule x 0-2 '
+        'pause/resume rounds x cache eviction on/off on the REAL engine, outcome at quiescence vs Mistral.Sem; non-trivial = '
+        'a join, a failing task or an operator command; distinct = distinct (definition, oracle, schedule seed, commands, evict); stream ctx as in C05 (the real data-flow functions on generated publish histories, every inbound context in all row orders, against Mistral.Ctx + order-independence monitor)')
 TRUSTED = ['harness seams replaced by recorders']
-LEAN_MODULES = ['Mistral.Props.C02']
+LEAN_MODULES = ['Mistral.Props.C02', 'Mistral.Props.C02Sem']
 
 
 def correspond(ctx):
@@ -25,14 +53,37 @@ def correspond(ctx):
     par.run_parallel(ctx, 'harness.engine_stream', 'run_chunk',
                      [{'n_programs': ctx.n(12, 400), 'props': ['C02'], 'mode': 'paired'}] * 14)
     par.run_parallel(ctx, 'harness.core_stream', 'run_chunk', [{'n_programs': ctx.n(8, 200), 'mode': 'plain'}] * 14)
+    # the declarative semantics itself against the real engine (not run against run): real runs to quiescence
+    # under random schedules (+pause/resume, +cache eviction) vs `sem.rows` of the Lean driver
+    par.run_parallel(ctx, 'harness.sem_stream', 'run_chunk', [{'n_programs': ctx.n(10, 300)}] * 14)
+    # the tie of merge_order_independent: the REAL data-flow functions on generated publish histories with every
+    # inbound context evaluated in ALL row orders (joins <= 4 parents) against Mistral.Ctx, and the monitor
+    # "the upstream context does not depend on the order the rows are listed when no publishers are concurrent"
+    par.run_parallel(ctx, 'harness.ctx_stream', 'run_chunk', [{'n_histories': ctx.n(100, 3000)}] * 14)
+    # the tie of join_verdict_order_independent / possibleRoute_congr: the REAL _get_join_logical_state on generated
+    # graphs with synthetic task rows against Mistral.Join
+    par.run_parallel(ctx, 'harness.join_stream', 'run_chunk',
+                     [{'n_programs': ctx.n(8, 200), 'rows_per_program': ctx.n(8, 20)}] * 14)
 
 
 def search(ctx):
     from vlib import par
+    par.run_parallel(ctx, 'harness.ctx_stream', 'run_chunk', [{'n_histories': 1000}] * 14)
+    if ctx.violations:
+        return
     par.run_parallel(ctx, 'harness.engine_stream', 'run_chunk',
                      [{'n_programs': 40, 'props': ['C02'], 'mode': 'paired'}] * 14)
 
 
 def replay(ctx, rep):
+    if isinstance(rep.get('replay'), dict) and rep['replay'].get('stream') == 'sem':
+        from harness import sem_stream
+        sem_stream.replay(ctx, rep)
+        return
+    r = rep.get('replay', rep)
+    if isinstance(r, dict) and 'history' in r:
+        from harness import ctx_stream
+        ctx_stream.replay(ctx, r)
+        return
     from harness import engine_stream
     engine_stream.replay(ctx, rep, ['C02'])
